@@ -217,3 +217,53 @@ func (e *Engine) derivedCtxType() types.Type {
 	}
 	return nil
 }
+
+// loopPhis counts the phi nodes at loop headers (blocks that dominate one of their predecessors) of the function
+// whose String() is name; -1 if not found.
+func (e *Engine) loopPhis(name string) int {
+	for _, p := range e.Prog.AllPackages() {
+		if !e.isRepoPkg(p) {
+			continue
+		}
+		var found *ssa.Function
+		for _, m := range p.Members {
+			switch m := m.(type) {
+			case *ssa.Function:
+				if m.String() == name {
+					found = m
+				}
+			case *ssa.Type:
+				for _, t := range []types.Type{m.Type(), types.NewPointer(m.Type())} {
+					ms := e.Prog.MethodSets.MethodSet(t)
+					for i := 0; i < ms.Len(); i++ {
+						if f := e.Prog.MethodValue(ms.At(i)); f != nil && f.String() == name {
+							found = f
+						}
+					}
+				}
+			}
+		}
+		if found == nil || found.Blocks == nil {
+			continue
+		}
+		n := 0
+		for _, b := range found.Blocks {
+			header := false
+			for _, pr := range b.Preds {
+				if b.Dominates(pr) {
+					header = true
+				}
+			}
+			if !header {
+				continue
+			}
+			for _, ins := range b.Instrs {
+				if _, ok := ins.(*ssa.Phi); ok {
+					n++
+				}
+			}
+		}
+		return n
+	}
+	return -1
+}
